@@ -24,9 +24,15 @@ VARIABLES
                 \* publication server's content: manifest and CRL number,
                 \* the objects (by identity) current under the key, which
                 \* objects ever seen under the key are on its CRL
-    ever        \* history: the objects ever current under each key
+    ever,       \* history: the objects ever current under each key
+    mark,       \* the serial-number level facts at the last Mark event
+    regime,     \* [mftdue, objdue]: what the "due" timing values make due
+    phase,      \* "normal" / "due": which timing values are in force
+    lossy       \* the publication server's operator removed a publisher
+                \* in this behaviour (the relying-party level expectations
+                \* do not apply to what the operator took away)
 
-tvars == <<vars, l, rp, keys, ever>>
+tvars == <<vars, l, rp, keys, ever, mark, regime, phase, lossy>>
 
 Line == Rec[l]
 
@@ -60,7 +66,26 @@ Projected(a) ==
                      /\ iss'[c] = Certs(a.iss[c])
                      /\ sus'[c] = Certs(a.sus[c])
         ELSE ~exists'[c]
-    /\ tasks' = {<<t[1], t[2]>> : t \in SetOf(a.tasks)}
+    \* the status reports of the CAs that exist (C19)
+    /\ \A c \in AllCA :
+        /\ (c # Top /\ Known(a.pst, c)) =>
+               /\ pst'[c].last = a.pst[c].last
+               /\ pst'[c].ents = SetOf(a.pst[c].ents)
+               /\ a.pst[c].others = <<>>
+        /\ (c # Top /\ Known(a.rst, c)) =>
+               /\ rst'[c].last = a.rst[c].last
+               /\ rst'[c].same = a.rst[c].same
+               /\ rst'[c].empty = a.rst[c].empty
+        /\ (c # Top /\ Known(a.kst, c)) => kst'[c] = a.kst[c]
+        /\ (c # Top /\ Known(a.pubknown, c)) => pubknown'[c] = a.pubknown[c]
+    \* while everything is due (between RestartDue and RestartNormal) every
+    \* command that touches a CA re-issues its manifests as a side effect
+    \* and schedules a repository synchronisation; these extra tasks are
+    \* taken over by the DueTouch event that follows
+    /\ LET obs == {<<t[1], t[2]>> : t \in SetOf(a.tasks)}
+       IN  IF phase = "due"
+           THEN tasks' \subseteq obs /\ \A t \in obs \ tasks' : t[1] = "sync_repo"
+           ELSE tasks' = obs
     /\ a.odd = <<>>
 
 NoKeys == [k \in {} |-> {}]
@@ -72,17 +97,26 @@ ObserveKeys(K) ==
 
 IsEvent(e) == /\ l <= Len(Rec) /\ Line.ev = e /\ l' = l + 1 /\ rp' = Line.rp
               /\ ObserveKeys(Line.abs.keys)
+              /\ mark' = (IF e = "Mark" THEN Line.abs.keys ELSE mark)
+              /\ regime' = regime
+              /\ lossy' = (lossy \/ e = "PubRemove")
+              /\ phase' = (IF e = "RestartDue" THEN "due"
+                           ELSE IF e \in {"RestartNormal", "Restart"} THEN "normal"
+                           ELSE phase)
 Ok == Line.status = "ok"
 IsError == Line.status = "error"
 
 TraceInit == /\ l = 1 /\ Init /\ rp = [vrps |-> <<>>, problems |-> <<>>]
-             /\ keys = NoKeys /\ ever = NoKeys
+             /\ keys = NoKeys /\ ever = NoKeys /\ mark = NoKeys
+             /\ regime = [mftdue |-> FALSE, objdue |-> FALSE] /\ phase = "normal" /\ lossy = FALSE
 
 \* a new behaviour starts: a fresh instance whose top CA has been set up
 Reset ==
     /\ l <= Len(Rec) /\ Line.ev = "reset" /\ l' = l + 1
     /\ rp' = [vrps |-> <<>>, problems |-> <<>>]
-    /\ keys' = NoKeys /\ ever' = NoKeys
+    /\ keys' = NoKeys /\ ever' = NoKeys /\ mark' = NoKeys
+    /\ regime' = [mftdue |-> Line.mftdue, objdue |-> Line.objdue]
+    /\ phase' = "normal" /\ lossy' = FALSE
     /\ exists' = [c \in AllCA |-> c = Top]
     /\ gone' = [c \in AllCA |-> FALSE]
     /\ parent' = [c \in AllCA |-> IF c = Top THEN "ta" ELSE "none"]
@@ -99,6 +133,10 @@ Reset ==
     /\ pub' = [c \in AllCA |-> IF c = Top THEN [EmptyPub EXCEPT !.cur = TRUE]
                                           ELSE EmptyPub]
     /\ tasks' = {}
+    /\ pubknown' = [c \in AllCA |-> c = Top]
+    /\ pst' = [c \in AllCA |-> NoPst]
+    /\ rst' = [c \in AllCA |-> NoRst]
+    /\ kst' = [c \in AllCA |-> "none"]
 
 \* the set-up of the top CA under the trust anchor (not modelled step by
 \* step): the recorded state must be the specification's initial state
@@ -142,6 +180,9 @@ TRollActivateNoop == IsEvent("RollActivate") /\ Ok
 TDeleteCa == IsEvent("DeleteCa") /\ Ok
           /\ DeleteCa(Args.c) /\ Projected(Line.abs)
 TRefresh == IsEvent("Refresh") /\ Ok /\ RefreshAll /\ Projected(Line.abs)
+TPubRemove == IsEvent("PubRemove") /\ Ok /\ PubRemove(Args.c) /\ Projected(Line.abs)
+TPubAdd == IsEvent("PubAdd") /\ Ok /\ PubAdd(Args.c) /\ Projected(Line.abs)
+TRepoSyncAll == IsEvent("RepoSyncAll") /\ Ok /\ RepoSyncAll /\ Projected(Line.abs)
 
 \* A request the code refuses must leave everything as it was.  (Whether a
 \* refusal is justified is C05's business; here the roll activation is the
@@ -152,7 +193,8 @@ TRefused ==
                     "ChildRemove", "RoaAdd", "RoaDel", "RollInit",
                     "RollActivate", "DeleteCa"}
     /\ IsError /\ l' = l + 1 /\ rp' = Line.rp
-    /\ ObserveKeys(Line.abs.keys)
+    /\ ObserveKeys(Line.abs.keys) /\ mark' = mark /\ regime' = regime
+    /\ phase' = phase /\ lossy' = lossy
     /\ Line.ev = "RollActivate" => RollActivateRefused(Args.c)
     /\ UNCHANGED vars /\ Projected(Line.abs)
 
@@ -163,7 +205,7 @@ TStep ==
     /\ LET kind == Line.tk[1]
            c == Line.tk[2]
        IN  \/ /\ kind = "sync_repo" /\ c \in AllCA
-              /\ (SyncRepo(c) \/ (SyncDropped(c) /\ SR(c) \notin tasks'))
+              /\ (SyncRepo(c) \/ SyncRepoFails(c) \/ (SyncDropped(c) /\ SR(c) \notin tasks'))
            \/ /\ kind = "sync_parent" /\ c \in Sub
               /\ \/ SyncParentSend(c) \/ SyncParentList(c) \/ SyncParentFails(c)
                  \/ (SyncDropped(c) /\ SP(c) \notin tasks')
@@ -176,6 +218,53 @@ TStep ==
               /\ UNCHANGED vars
     /\ Projected(Line.abs)
 
+\* maintenance tasks run out of band, under the run's timing regime
+TRepublish == IsEvent("Republish") /\ Ok /\ Republish(regime.mftdue /\ phase = "due") /\ Projected(Line.abs)
+TRenew == IsEvent("Renew") /\ Ok /\ Renew(regime.objdue /\ phase = "due") /\ Projected(Line.abs)
+TDueTouch == IsEvent("DueTouch") /\ phase = "due"
+    /\ LET obs == {<<t[1], t[2]>> : t \in SetOf(Line.abs.tasks)}
+       IN  /\ tasks \subseteq obs
+           /\ \A t \in obs \ tasks : t[1] = "sync_repo" /\ HasKeys(t[2])
+           /\ tasks' = obs
+    /\ UNCHANGED <<exists, gone, parent, ent, cstate, iss, sus, rc, rcv, req, routes, pub,
+                   pubknown, pst, rst, kst>>
+    /\ Projected(Line.abs)
+\* a restart (with the due / the normal timing values) changes nothing
+TRestart == (IsEvent("Restart") \/ IsEvent("RestartDue") \/ IsEvent("RestartNormal"))
+            /\ Ok /\ UNCHANGED vars /\ Projected(Line.abs)
+TMark == IsEvent("Mark") /\ UNCHANGED vars /\ Projected(Line.abs)
+
+\* C14: what a maintenance run (and the repository syncs it caused) did to
+\* the keys that exist before and after: compared with the marked facts
+Both == (DOMAIN mark) \cap (DOMAIN keys)
+\* nothing due: nothing changes at all
+TExpectSame == IsEvent("ExpectSame") /\ UNCHANGED vars /\ Projected(Line.abs)
+    /\ DOMAIN mark = DOMAIN Line.abs.keys
+    /\ \A k \in DOMAIN mark :
+          /\ Line.abs.keys[k].mft = mark[k].mft /\ Line.abs.keys[k].crl = mark[k].crl
+          /\ Line.abs.keys[k].objs = mark[k].objs
+          /\ Line.abs.keys[k].mft_next = mark[k].mft_next
+\* manifests and CRLs due: every key's numbers go up by exactly one, the
+\* objects stay the same objects
+TExpectReissued == IsEvent("ExpectReissued") /\ UNCHANGED vars /\ Projected(Line.abs)
+    /\ DOMAIN mark = DOMAIN Line.abs.keys
+    /\ \A k \in DOMAIN mark :
+          /\ Line.abs.keys[k].mft = mark[k].mft + 1 /\ Line.abs.keys[k].crl = mark[k].crl + 1
+          /\ Line.abs.keys[k].objs = mark[k].objs
+          /\ Line.abs.keys[k].mft_this >= mark[k].mft_this
+\* route origin objects due: every one of them is replaced by a new object
+\* (the payloads are the same: the projected publication is unchanged), the
+\* numbers of keys with such objects go up by exactly one, other keys stay
+TExpectRenewed == IsEvent("ExpectRenewed") /\ UNCHANGED vars /\ Projected(Line.abs)
+    /\ DOMAIN mark = DOMAIN Line.abs.keys
+    /\ \A k \in DOMAIN mark :
+          LET old == SetOf(mark[k].roas)
+              new == SetOf(Line.abs.keys[k].roas)
+          IN  /\ Cardinality(new) = Cardinality(old)
+              /\ new \cap old = {}
+              /\ SetOf(Line.abs.keys[k].objs) \ new = SetOf(mark[k].objs) \ old
+              /\ Line.abs.keys[k].mft = mark[k].mft + (IF old = {} THEN 0 ELSE 1)
+
 \* the harness found nothing left to do after a full refresh round
 TSettled == IsEvent("Settled") /\ UNCHANGED vars /\ Projected(Line.abs)
 
@@ -185,7 +274,8 @@ TraceNext ==
     \/ TChildUnsuspend \/ TChildUnsuspendNoop \/ TChildRemove
     \/ TRoaAdd \/ TRoaDel \/ TRollInit \/ TRollInitNoop
     \/ TRollActivate \/ TRollActivateNoop \/ TDeleteCa \/ TRefresh
-    \/ TRefused \/ TStep \/ TSettled
+    \/ TRefused \/ TStep \/ TSettled \/ TPubRemove \/ TPubAdd \/ TRepoSyncAll
+    \/ TRepublish \/ TRenew \/ TRestart \/ TDueTouch \/ TMark \/ TExpectSame \/ TExpectReissued \/ TExpectRenewed
 
 TraceSpec == TraceInit /\ [][TraceNext]_tvars
 
@@ -203,7 +293,8 @@ RpMatches ==
 \* nothing is left to do
 SettledAgreed ==
     (l > 1 /\ Rec[l - 1].ev = "Settled")
-        => Settled /\ (rp.problems = <<>> \/ ~NoDangling \/ ~NoStuckRequest \/ ~NoLostCert)
+        => Settled /\ (rp.problems = <<>> \/ ~NoDangling \/ ~NoStuckRequest \/ ~NoLostCert
+                       \/ lossy)
 
 \* C03: whatever stopped being current under a key is on that key's CRL for
 \* as long as the key publishes one (objects do not expire within a run),
@@ -217,13 +308,27 @@ C03_CurrentNotRevoked ==
 \* C14 / C01: manifest and CRL numbers agree; every file under a key is on
 \* its manifest and every listed file is there
 C14_NumbersAgree == \A k \in DOMAIN keys : keys[k].mft = keys[k].crl
+\* C14 / C09: what a CA's object store holds is published once no repository
+\* synchronisation is pending for the CA
+C14_StorePublished ==
+    \A k \in DOMAIN keys :
+        (keys[k].ca \in AllCA /\ SR(keys[k].ca) \notin tasks /\ keys[k].store >= 0
+           /\ ~(l <= Len(Rec) /\ Rec[l].ev = "DueTouch"))
+        => keys[k].store = keys[k].mft
+\* C14: validity windows contain the present
+C14_ValidityContainsNow ==
+    (l > 1 /\ Rec[l - 1].ev # "reset") =>
+        \A k \in DOMAIN keys :
+            keys[k].mft >= 0 =>
+              keys[k].mft_this <= Rec[l - 1].abs.now /\ Rec[l - 1].abs.now <= keys[k].mft_next
 C01_ManifestExact ==
     \A k \in DOMAIN keys : keys[k].unlisted = <<>> /\ keys[k].missing = <<>>
 
 TraceInvariant ==
     /\ TypeOK
     /\ C03_RevokedWhileRelevant /\ C03_CurrentNotRevoked
-    /\ C14_NumbersAgree /\ C01_ManifestExact
+    /\ C14_NumbersAgree /\ C14_ValidityContainsNow /\ C14_StorePublished
+    /\ C01_ManifestExact
     /\ RpMatches
     /\ SettledAgreed
     /\ C01_Clean /\ C01_Vrps
@@ -240,7 +345,8 @@ C14_NumbersRiseStep ==
 
 TraceStepProps ==
     [][ NotReset => /\ C02_IssuedWithinEntitlementStep
-                    /\ C14_NumbersRiseStep ]_tvars
+                    /\ C14_NumbersRiseStep
+                    /\ C19_ShadowAfterSyncStep ]_tvars
 
 TraceAccepted ==
     LET d == TLCGet("stats").diameter IN
@@ -248,4 +354,11 @@ TraceAccepted ==
     ELSE /\ PrintT(<<"TRACE_REJECTED", "matched", d - 1, "of", Len(Rec)>>)
          /\ PrintT(<<"TRACE_NEXT", ToJson(Rec[d])>>)
          /\ FALSE
+\* the relying-party level expectations, for behaviours in which the
+\* publication server's operator did not remove a publisher
+T_C01_Clean == lossy \/ C01_Clean
+T_C01_Vrps == lossy \/ C01_Vrps
+T_C04_PubKeysMatch == lossy \/ C04_PubKeysMatch
+T_C02_NoOverclaim == lossy \/ C02_NoOverclaim
+
 =============================================================================
